@@ -61,6 +61,16 @@ pub fn run(thorough: bool, mut rng: Rng, mut out: Out) {
             Step::Issue { kind: OpKind::Single, tmo_ms: None }, Step::Settle,
             Step::Issue { kind: OpKind::Abandon(1), tmo_ms: None }, Step::Settle, Step::Table]),
         ("F15 scrub overtakes its request", f15_script()),
+        ("F24 an operation issued through the stream's own handle must not redirect the stream's scrub", vec![
+            Step::Issue { kind: OpKind::Search, tmo_ms: None }, Step::Settle,                 // op 0, id 1
+            Step::Send { id: 1, op: 4, good: false }, Step::Settle, Step::Next(0), Step::Settle,
+            Step::Via(0), Step::Settle,                                                        // op 1, id 2, via stream.ldap_handle()
+            Step::Send { id: 2, op: 11, good: true }, Step::Settle,
+            Step::Finish(0), Step::Settle, Step::Table]),                                      // finished early: scrub of id 1
+        ("F24 ... and a time-out of next() scrubs the search's own ID", vec![
+            Step::Issue { kind: OpKind::Search, tmo_ms: Some(5) }, Step::Settle,
+            Step::Via(0), Step::Settle, Step::Send { id: 2, op: 11, good: true }, Step::Settle,
+            Step::Next(0), Step::Tick(6), Step::Settle, Step::Finish(0), Step::Settle, Step::Table]),
         ("F22 operations that fail with the connection, and after it, leave their IDs reserved", vec![
             Step::Issue { kind: OpKind::Single, tmo_ms: None }, Step::Settle, Step::Close, Step::Settle,
             Step::Issue { kind: OpKind::Single, tmo_ms: None }, Step::Settle,
